@@ -38,7 +38,7 @@ def nontrivial_src(src):
     return any(k in src for k in ("for (", "while (", "do\n")) or src.count("function ") > 1
 
 
-def judge(run, rec, pid="C01"):
+def judge(run, rec, pid="C01", all_nontrivial=False):
     if not progfam.account(run, rec): return
     src = rec["src"]
     obs = rec.get("obs", {})
@@ -54,7 +54,7 @@ def judge(run, rec, pid="C01"):
         raise common.Infra("model driver rejected a generated module: " + rec["model_error"])
     ref, i0, i1 = obs.get("ref", []), obs.get("impl0", []), obs.get("impl1")
     mv, mr = obs.get("model_vm", []), obs.get("model_ref", [])
-    nt = nontrivial_src(src)
+    nt = all_nontrivial or nontrivial_src(src)
     dom = rec.get("domain", "")
     run.count("theorem-domain:" + ("ScalarCore" if "scalarcore=yes" in dom else "StorageCore" if "storagecore=yes" in dom else
                                    "VectorCore" if "vectorcore=yes" in dom else "outside (correspondence only)"))
